@@ -80,6 +80,7 @@ def _key_disjoint(o, k):
 
 CONTRACTS.append(Contract(
     P + "add_lost_segment", arg_types={**SELF, "lost_seg": T.Pair}, props=PROPS, modifies=["self.lost_segments"],
+    guard_requires=True,
     requires=[("disjoint_nonempty", _add_pre)],
     # key-level form of the byte-level disjointness precondition (witness byte: max(a, k))
     pre_lemmas=[Lemma("key_disjoint", 1, _key_disjoint,
@@ -132,7 +133,7 @@ def _rm_loop_inv(I, pre, env, idx, n):
 
 CONTRACTS.append(Contract(
     P + "remove_lost_segment", arg_types={**SELF, "segment_to_remove": T.Pair}, props=PROPS,
-    modifies=["self.lost_segments"], result=T.Bool,
+    modifies=["self.lost_segments"], result=T.Bool, guard_requires=True, raises_outside=(ValueError,),
     requires=[("wf", lambda o: z3.And(tr_wf(D(o)), 0 <= o.segment_to_remove[0],
                                      o.segment_to_remove[0] <= o.segment_to_remove[1]))],
     ensures=[
@@ -231,7 +232,7 @@ def _no_adjacent(d):
 
 
 CONTRACTS.append(Contract(
-    P + "coalesce_lost_segments", arg_types=SELF, props=PROPS, modifies=["self.lost_segments"],
+    P + "coalesce_lost_segments", arg_types=SELF, props=PROPS, modifies=["self.lost_segments"], guard_requires=True,
     requires=[("wf", lambda o: tr_wf(D(o)))],
     ensures=[
         Clause("C18.co_view_same", lambda o, n, r: z3.ForAll([X], view(D(n), X) == view(D(o), X)), PROPS,
